@@ -14,6 +14,7 @@ import r_cost
 import r_panic
 import r_feat
 import r_rewrite
+import r_writedict
 
 NA = {}
 
@@ -72,7 +73,7 @@ PROPS = {
     },
     "C14": {
         "rules": [r_fmt.run_c14, r_cost.run_c14, kind_scope("trainer::model"), r_misc.cache, r_misc.idxbase,
-                  r_codec.run_c18, r_feat.csvdefault],
+                  r_codec.run_c18, r_feat.csvdefault, r_writedict.run],
         "explanation": "FMT: each generated file's row template (delimiters, column count and "
                        "order, quoted surface first, feature last) matches what the compiler's "
                        "reader does with each column (parse_csv column->field mapping, "
@@ -444,7 +445,11 @@ _ADDED = {
     "C13": ("SORTCMP: both sort comparators of compute_probs compare second.prob with first.prob "
             "(non-increasing frequency) and break ties by first.id against second.id (ascending).",
             "comparator shape rule over closure MIR"),
-    "C14": ("CODEC over the model image (files are normally generated from a re-read model). "
+    "C14": ("LABELBASE: lexicon row i, unk row j and user label L read feature_sets[i], "
+            "[surfaces.len()+j] and [L-1], matching the labels the trainer hands out. MATDIM: "
+            "matrix.def header = (right classes + 1, left classes + 1). USERCOPY: rows given as "
+            "0,0,0 get trained values, all others their own parameters. LEXTAG: each component is "
+            "asked with its own WordIdx tag. CODEC over the model image (files are normally generated from a re-read model). "
             "QUOTER: every byte quote_csv_cell writes comes from the csv-core writer's output "
             "buffer and Writer::finish precedes Ok. IDXBASE: a 1-based feature id indexes rucrf's "
             "unigram table as id-1 and the bigram table (slot 0 = BOS/EOS) as id. "
